@@ -49,10 +49,41 @@ def judge(node, step, tr):
 
 def work(task):
     name, project, depth, level, profile = task
+    if isinstance(project, list):
+        # several projects one after the other in ONE process (the same
+        # app/model/table/column names with different definitions): nothing
+        # a run leaves behind in the process may leak into the next
+        total, viol = None, {}
+        for p in project:
+            st, v = EA.bfs(p, depth, judge, level=level,
+                           row_profile=profile, check_rows=True)
+            if total is None:
+                total = st
+            else:
+                common.merge_stats(total, st)
+            for fp, ent in v.items():
+                viol.setdefault(fp + '|after-a-same-named-project', ent)
+        total['starts'] = len(project)
+        return name, total, viol
     stats, violations = EA.bfs(project, depth, judge, level=level,
                                row_profile=profile, check_rows=True)
     stats['starts'] = 1
     return name, stats, violations
+
+
+def same_named_projects():
+    """Author/Book twice: the referenced primary key `code` is an integer
+    in the first project and a string in the second."""
+    from vf.spec import F, M, A, P
+    out = []
+    for pk in (F('code', 'Int', primary_key=True),
+               F('code', 'Char', primary_key=True, max_length=10)):
+        out.append(P(A('va', [
+            M('Author', [pk, F('name', 'Char', max_length=20)]),
+            M('Book', [F('title', 'Char', max_length=20),
+                       F('pages', 'Int', null=True),
+                       F('author', 'FK', to='va.Author', null=True)])])))
+    return out
 
 
 def tasks_for(tier):
@@ -65,7 +96,11 @@ def tasks_for(tier):
             tasks.append((name + '-R6', p, 1, 'full', 'R6'))
         for name, p in starts.s1(fieldsets=('V1',), metas=('none',)):
             tasks.append((name + '-R2-d2', p, 2, 'lite', 'R2'))
+        tasks.append(('same-named-projects', same_named_projects(), 1,
+                      'lite', 'R2'))
     else:
+        tasks.append(('same-named-projects', same_named_projects(), 2,
+                      'lite', 'R2'))
         for name, p in all_starts:
             tasks.append((name + '-R2', p, 2, 'full', 'R2'))
             tasks.append((name + '-R6', p, 1, 'full', 'R6'))
